@@ -5,6 +5,7 @@ import (
 	"go/token"
 	"go/types"
 	"math/big"
+	"regexp"
 	"strings"
 
 	"golang.org/x/tools/go/ssa"
@@ -78,8 +79,13 @@ func (g *Gen) call(in ssa.Instruction, c *ssa.CallCommon, rt types.Type) Val {
 
 // siteMatches: a call site written in a contract may omit the package qualifier of the callee.
 func siteMatches(full, spec string) bool {
-	return full == spec || strings.HasSuffix(full, "."+spec) || strings.HasSuffix(full, "/"+spec)
+	if full == spec || strings.HasSuffix(full, "."+spec) || strings.HasSuffix(full, "/"+spec) {
+		return true
+	}
+	return pkgQual.ReplaceAllString(full, "$1") == pkgQual.ReplaceAllString(spec, "$1")
 }
+
+var pkgQual = regexp.MustCompile(`(^|[(*])[A-Za-z0-9_/\-]+\.`)
 
 func (g *Gen) callInner(in ssa.Instruction, c *ssa.CallCommon, rt types.Type) Val {
 	name := g.calleeName(c)
